@@ -5,6 +5,17 @@ import Qentem.Proofs.NumToStrInt
 import Qentem.Proofs.NumToStrBits
 import Qentem.Proofs.NumToStrAppend
 import Qentem.Proofs.NumToStrIntClass
+import Qentem.Proofs.NumToStrExact
+import Qentem.Proofs.NumToStrIntClass32
+import Qentem.Proofs.NumToStrLayout
+import Qentem.Proofs.NumToStrDefault
+import Qentem.Proofs.NumToStrDefaultRound
+import Qentem.Proofs.NumToStrFixedRound
+import Qentem.Proofs.NumToStrDefaultGe1
+import Qentem.Proofs.NumToStrDefaultFrac
+import Qentem.Proofs.NumToStrFixedLt1
+import Qentem.Proofs.NumToStrDefaultLt1
+import Qentem.Proofs.NumToStrFloat32
 /-! C10 — number to text equals the reference formatting for every value and precision.
 
 Model: `Qentem.NumToStr` (transcription of `Digit.hpp`), reference: `Qentem.FmtSpec` (ISO C
@@ -187,11 +198,267 @@ theorem format_eq_spec_integers (pre : List Nat) (bits p f : Nat) (hp : p ≤ 10
   obtain ⟨j, hj⟩ := h
   exact Qentem.Proofs.NumToStr.int_class64 pre bits p f j hf hp hj
 
+/-- integer-valued floats: `2^23 + f = 2^j · odd` with `23 - j ≤ e - 127`; every float of magnitude ≥ 2^23 is one -/
+def IntegerValued32 (bits : Nat) : Prop :=
+  ∃ j, Qentem.Proofs.NumToStr.F32.IntValued32 ((bits / 2 ^ 23) % 2 ^ 8) (bits % 2 ^ 23) j
+
+theorem integer_valued_of_big32 (bits : Nat) (h1 : 150 ≤ (bits / 2 ^ 23) % 2 ^ 8) (h2 : (bits / 2 ^ 23) % 2 ^ 8 < 255) :
+    IntegerValued32 bits :=
+  Qentem.Proofs.NumToStr.F32.intValued_of_big h1 h2 (Nat.mod_lt _ (Nat.two_pow_pos 23))
+
+/-- `format_eq_spec_integers32`: every integer-valued float (all |x| ≥ 2^23 and all integers), Fixed and
+SemiFixed, any precision, any stream contents: exactly the reference text. -/
+theorem format_eq_spec_integers32 (pre : List Nat) (bits p f : Nat) (hp : p ≤ 1048576) (hf : f = 1 ∨ f = 2)
+    (h : IntegerValued32 bits) :
+    realToString f32 pre bits p f = .ok (pre ++ FmtSpec.format32 bits p (specFmt f)) := by
+  obtain ⟨j, hj⟩ := h
+  exact Qentem.Proofs.NumToStr.F32.int_class32 pre bits p f j hf hp hj
+
+example : IntegerValued32 0x4B800000 := integer_valued_of_big32 _ (by decide) (by decide)   -- 2^24
+
 /-- non-vacuity: 1e21 (= 0x444B1AE4D6E2EF50) and 3.0 are integer-valued; 0.5 is not -/
 example : IntegerValued64 0x444B1AE4D6E2EF50 := integer_valued_of_big _ (by decide) (by decide)
 example : IntegerValued64 0x4008000000000000 := ⟨51, by constructor <;> decide⟩
 example : realToString f64 [] 0x444B1AE4D6E2EF50 2 fmtFixed =
     .ok [49,48,48,48,48,48,48,48,48,48,48,48,48,48,48,48,48,48,48,48,48,48,46,48,48] := by decide +kernel  -- 1000000000000000000000.00
+
+/-! ### the digit run is exact (whole real path) -/
+
+/-- **`digits_exact_or_sticky`** — doubles.  For every finite non-zero bit pattern, every format and every
+precision ≤ 40, the model's digit run (`bigIntDropDigits`, the ×5^27 loop with its mid-loop shifts, the
+checked BigInt width) returns **without fault** a BigInt `b` with
+`b = ⌊v · 10^fl / 10^d⌋` for the exact value `v = num/den` the reference decodes (`fl` = the fraction
+length handed to the formatter, `d` = number of integer digits dropped; one of them is 0), and
+`round_up = true ↔` the cut-off part is non-zero.  So the digit string the formatter receives is the exact
+decimal expansion of the binary value truncated at a known place, plus a correct sticky flag: after this,
+`FormatEqSpec` is a statement about the string-level formatter alone. -/
+theorem digits_exact_or_sticky (bits p fmt : Nat) (hp : p ≤ 40)
+    (hfin : (bits / 2 ^ 52) % 2 ^ 11 ≠ 2 ^ 11 - 1)
+    (hnz : (bits / 2 ^ 52) % 2 ^ 11 ≠ 0 ∨ bits % 2 ^ 52 ≠ 0) :
+    ∃ b digits fl pos ru d num den,
+      digitRun f64 (bits % 2 ^ 52) ((bits / 2 ^ 52) % 2 ^ 11 * 2 ^ 52) p fmt = .ok (b, digits, fl, pos, ru) ∧
+      FmtSpec.decode64 bits = .fin (decide ((bits / 2 ^ 63) % 2 = 1)) num den ∧ 0 < den ∧
+      (fl = 0 ∨ d = 0) ∧
+      b = num * 10 ^ fl / (den * 10 ^ d) ∧
+      (ru = true ↔ (num * 10 ^ fl) % (den * 10 ^ d) ≠ 0) :=
+  Qentem.Proofs.NumToStr.digitRun_exact (X := 11) Qentem.Proofs.NumToStr.shape64 (by decide) (by decide)
+    bits p fmt hp hfin hnz
+
+/-- the same for floats -/
+theorem digits_exact_or_sticky32 (bits p fmt : Nat) (hp : p ≤ 40)
+    (hfin : (bits / 2 ^ 23) % 2 ^ 8 ≠ 2 ^ 8 - 1)
+    (hnz : (bits / 2 ^ 23) % 2 ^ 8 ≠ 0 ∨ bits % 2 ^ 23 ≠ 0) :
+    ∃ b digits fl pos ru d num den,
+      digitRun f32 (bits % 2 ^ 23) ((bits / 2 ^ 23) % 2 ^ 8 * 2 ^ 23) p fmt = .ok (b, digits, fl, pos, ru) ∧
+      FmtSpec.decode32 bits = .fin (decide ((bits / 2 ^ 31) % 2 = 1)) num den ∧ 0 < den ∧
+      (fl = 0 ∨ d = 0) ∧
+      b = num * 10 ^ fl / (den * 10 ^ d) ∧
+      (ru = true ↔ (num * 10 ^ fl) % (den * 10 ^ d) ≠ 0) :=
+  Qentem.Proofs.NumToStr.digitRun_exact (X := 8) Qentem.Proofs.NumToStr.shape32 (by decide) (by decide)
+    bits p fmt hp hfin hnz
+
+/-- non-vacuity: 0.1 at 17 digits — the run is ⌊0.1·10^20⌋ = 10000000000000000555 (20 fractional digits), sticky -/
+example : digitRun f64 (0x3FB999999999999A % 2 ^ 52) ((0x3FB999999999999A / 2 ^ 52) % 2 ^ 11 * 2 ^ 52) 17 0 =
+    .ok (10000000000000000555, 2, 20, false, true) := by decide +kernel
+
+/-- `format_eq_spec_integers_default`: Default format (`%.{p}g`), every integer-valued double whose decimal
+numeral has at most `P` digits (`P` = precision, 1 for precision 0): the plain numeral, no exponent form,
+exactly as printf.  (Integers with more digits than the precision need the rounding step: open.) -/
+theorem format_eq_spec_integers_default (pre : List Nat) (bits p : Nat) (hp : p ≤ 1048576) (j : Nat)
+    (h : IntValued64 ((bits / 2 ^ 52) % 2 ^ 11) (bits % 2 ^ 52) j)
+    (hl : ((Nat.toDigits 10 (Qentem.Proofs.NumToStr.intValue64 ((bits / 2 ^ 52) % 2 ^ 11) (bits % 2 ^ 52))).map Char.toNat).length
+        ≤ (if p = 0 then 1 else p)) :
+    realToString f64 pre bits p fmtDefault = .ok (pre ++ FmtSpec.format64 bits p (specFmt fmtDefault)) :=
+  Qentem.Proofs.NumToStr.default_small_int64 pre bits p j h hl hp
+
+/-- `format_eq_spec_integers_default_all`: **Default format (`%.{p}g`) for every integer-valued double**, in
+particular every |x| ≥ 2^52, precision ≤ 40.  With at most `P` digits the plain numeral is printed; with more,
+the value is rounded half-even to `P` significant digits — rounding digit against '5', sticky lower digits
+(including the digits the BigInt pipeline dropped), tie to even, carry over nines, carry out of the top digit —
+and printed as `d.ddde+XX` with trailing zeros removed: exactly the reference. -/
+theorem format_eq_spec_integers_default_all (pre : List Nat) (bits p : Nat) (hp : p ≤ 40) (h : IntegerValued64 bits) :
+    realToString f64 pre bits p fmtDefault = .ok (pre ++ FmtSpec.format64 bits p (specFmt fmtDefault)) := by
+  obtain ⟨j, hj⟩ := h
+  by_cases hl : (Qentem.Proofs.NumToStr.D (Qentem.Proofs.NumToStr.intValue64 ((bits / 2 ^ 52) % 2 ^ 11) (bits % 2 ^ 52))).length
+      ≤ (if p = 0 then 1 else p)
+  · exact Qentem.Proofs.NumToStr.default_small_int64 pre bits p j hj hl (by omega)
+  · exact Qentem.Proofs.NumToStr.default_big_int64 pre bits p j hp hj (by omega)
+
+/-- tests (kernel evaluation): 2^70 at 5 digits; 9.999999e22-ish carry; 250 at 1 digit (tie to even) -/
+example : realToString f64 [] 0x4450000000000000 5 fmtDefault = .ok [49, 46, 49, 56, 48, 54, 101, 43, 50, 49] := by
+  decide +kernel   -- 1.1806e+21
+example : realToString f64 [] 0x406F400000000000 1 fmtDefault = .ok [50, 101, 43, 48, 50] := by decide +kernel  -- 2e+02
+
+/-- the digit estimate of `realToString` is exactly the number of decimal digits of `2^e`, for every binary
+exponent a double or float can have -/
+theorem digit_estimate_exact : ∀ e, e ≤ 1130 →
+    10 ^ (e * 30103 / 100000) ≤ 2 ^ e ∧ 2 ^ e < 10 ^ (e * 30103 / 100000 + 1) :=
+  Qentem.Proofs.NumToStr.est_table
+
+/-- number of binary fraction digits of a double (`0` for integers): `52 - ctz(mantissa) ∓ exponent` -/
+abbrev fracBits64 (bits : Nat) : Nat :=
+  Qentem.Proofs.NumToStr.fracBits 52 1023 (bits % 2 ^ 52) ((bits / 2 ^ 52) % 2 ^ 11)
+
+/-- `format_eq_spec_short_fractions`: every double `k · 2^-j` whose binary fraction has `j` digits with
+`0 < j ≤ precision ≤ 40` (any magnitude, e.g. 0.5, 0.375, -1234.5625, 2^-40): its decimal expansion is
+finite with `j` digits, the BigInt pipeline yields exactly those digits (no rounding takes place), and
+Fixed and SemiFixed print exactly `%.{p}f` / its stripped form. -/
+theorem format_eq_spec_short_fractions (pre : List Nat) (bits p f : Nat) (hf : f = 1 ∨ f = 2) (hp : p ≤ 40)
+    (hfin : (bits / 2 ^ 52) % 2 ^ 11 ≠ 2 ^ 11 - 1) (h0 : 0 < fracBits64 bits) (hle : fracBits64 bits ≤ p) :
+    realToString f64 pre bits p f = .ok (pre ++ FmtSpec.format64 bits p (specFmt f)) :=
+  Qentem.Proofs.NumToStr.short_fraction64 pre bits p f hf hp hfin h0 hle
+
+/-- non-vacuity: 0.375 has 3 fraction bits, -1234.5625 has 4 -/
+example : fracBits64 0x3FD8000000000000 = 3 ∧ fracBits64 0xC0934A4000000000 = 4 := by decide
+example : realToString f64 [] 0xC0934A4000000000 6 fmtFixed =
+    .ok [45, 49, 50, 51, 52, 46, 53, 54, 50, 53, 48, 48] := by decide +kernel   -- -1234.562500
+
+/-- `format_eq_spec_default_large`: **Default (`%.{p}g`) for every double ≥ 1 whose digit estimate
+`⌊e·30103/100000⌋+1` exceeds `P`** (so for every |x| ≥ 10^P, e.g. all |x| ≥ 1e40 at any precision ≤ 40), integer or
+not: the pipeline drops `estimate − P − 1` integer digits, keeps the fraction and the dropped digits in the sticky
+flag, rounds half-even to `P` digits and prints `d.ddde+XX` — exactly the reference. -/
+theorem format_eq_spec_default_large (pre : List Nat) (bits p : Nat) (hp : p ≤ 40)
+    (hfin : (bits / 2 ^ 52) % 2 ^ 11 ≠ 2 ^ 11 - 1) (hge1 : 1023 ≤ (bits / 2 ^ 52) % 2 ^ 11)
+    (hx : (if p = 0 then 1 else p) < ((bits / 2 ^ 52) % 2 ^ 11 - 1023) * 30103 / 100000 + 1) :
+    realToString f64 pre bits p fmtDefault = .ok (pre ++ FmtSpec.format64 bits p (specFmt fmtDefault)) :=
+  Qentem.Proofs.NumToStr.default_extra64 pre bits p hp hfin hge1 hx
+
+/-- test: 1521525.3 at 6 digits (witness of a repaired defect) → 1.52153e+06 -/
+example : realToString f64 [] 0x413737754CCCCCCD 6 fmtDefault =
+    .ok [49, 46, 53, 50, 49, 53, 51, 101, 43, 48, 54] := by decide +kernel
+
+/-- `format_eq_spec_fixed_ge1`: **Fixed (`%.{p}f`) and SemiFixed for every finite double of magnitude ≥ 1**,
+every precision ≤ 40, after any stream contents.  Integers print exactly; values whose binary fraction has at
+most `p` digits print their finite expansion; all others are produced with one extra digit
+(`⌊v·10^(p+1)⌋` + sticky flag, exact by `digits_exact_or_sticky`), rounded half-even in place — rounding digit
+against '5', tie to even on the next digit, carries over nines, carry out of the top digit — and laid out by
+`formatStringNumberFixed` (point insertion, zero restoring, padding): exactly the reference text. -/
+theorem format_eq_spec_fixed_ge1 (pre : List Nat) (bits p f : Nat) (hf : f = 1 ∨ f = 2) (hp : p ≤ 40)
+    (hfin : (bits / 2 ^ 52) % 2 ^ 11 ≠ 2 ^ 11 - 1) (hge1 : 1023 ≤ (bits / 2 ^ 52) % 2 ^ 11) :
+    realToString f64 pre bits p f = .ok (pre ++ FmtSpec.format64 bits p (specFmt f)) :=
+  Qentem.Proofs.NumToStr.fixed_ge1_64 pre bits p f hf hp hfin hge1
+
+/-- tests (kernel evaluation): 11150.001 SemiFixed 2 → 11150; 9999.995 Fixed 2 → 10000.00 (carry out);
+2.5 Fixed 0 → 2 (tie to even); 1234.5678 Fixed 2 -/
+example : realToString f64 [] 0x40C5C7002085B185 2 fmtSemiFixed = .ok [49, 49, 49, 53, 48] := by decide +kernel
+example : realToString f64 [] 0x40C387FF5C28F5C3 2 fmtFixed = .ok [49, 48, 48, 48, 48, 46, 48, 48] := by decide +kernel
+example : realToString f64 [] 0x4004000000000000 0 fmtFixed = .ok [50] := by decide +kernel
+
+/-- `format_eq_spec_default_ge1`: **Default (`%.{p}g`) for every finite double of magnitude ≥ 1**, every precision
+≤ 40, after any stream contents.  Besides the integer and the large classes above this covers every value that
+keeps a fraction: the fraction block yields `min(fracBits, P − estimate + 1)` fractional digits exactly
+(`digits_exact_or_sticky`), the run is rounded half-even at the `P`-th significant digit, zeros are skipped or
+restored, and the text is laid out plain, with the point, or as `1e+XX` when the carry produces a new digit that no
+longer fits — the reference `%g` in each case (including `%g`'s re-evaluation of the exponent after rounding). -/
+theorem format_eq_spec_default_ge1 (pre : List Nat) (bits p : Nat) (hp : p ≤ 40)
+    (hfin : (bits / 2 ^ 52) % 2 ^ 11 ≠ 2 ^ 11 - 1) (hge1 : 1023 ≤ (bits / 2 ^ 52) % 2 ^ 11) :
+    realToString f64 pre bits p fmtDefault = .ok (pre ++ FmtSpec.format64 bits p (specFmt fmtDefault)) :=
+  Qentem.Proofs.NumToStr.default_ge1_64 pre bits p hp hfin hge1
+
+/-- `format_eq_spec_ge1`: **`FormatEqSpec` restricted to doubles of magnitude ≥ 1**: all three formats, every
+precision ≤ 40, every finite double with biased exponent ≥ 1023. -/
+theorem format_eq_spec_ge1 (pre : List Nat) (bits p f : Nat) (hf : f ≤ 2) (hp : p ≤ 40)
+    (hfin : (bits / 2 ^ 52) % 2 ^ 11 ≠ 2 ^ 11 - 1) (hge1 : 1023 ≤ (bits / 2 ^ 52) % 2 ^ 11) :
+    realToString f64 pre bits p f = .ok (pre ++ FmtSpec.format64 bits p (specFmt f)) := by
+  have h3 : f = 0 ∨ f = 1 ∨ f = 2 := by omega
+  rcases h3 with rfl | h12
+  · exact format_eq_spec_default_ge1 pre bits p hp hfin hge1
+  · exact format_eq_spec_fixed_ge1 pre bits p f h12 hp hfin hge1
+
+/-- tests (kernel evaluation): 9.9999 at 3 digits → 10 (carry, exponent re-evaluated);
+999999.5 at 6 → 1e+06; 3.14159 at 3 → 3.14; 1.5 at 17 → 1.5 -/
+example : realToString f64 [] 0x4023FFF2E48E8A72 3 fmtDefault = .ok [49, 48] := by decide +kernel
+example : realToString f64 [] 0x412E847F00000000 6 fmtDefault = .ok [49, 101, 43, 48, 54] := by decide +kernel
+example : realToString f64 [] 0x400921F9F01B866E 3 fmtDefault = .ok [51, 46, 49, 52] := by decide +kernel
+example : realToString f64 [] 0x3FF8000000000000 17 fmtDefault = .ok [49, 46, 53] := by decide +kernel
+
+/-- `format_eq_spec_fixed_all`: **Fixed (`%.{p}f`) and SemiFixed for every double** — every one of the 2^64 bit
+patterns (zeros, subnormals, normals of any magnitude, infinities, NaNs), every precision ≤ 40, after any stream
+contents.  This is the `Fixed`/`SemiFixed` half of the double part of `FormatEqSpec`, with no exception.  Below
+one the pipeline produces `estimate + p + 1` fractional digits exactly, rounds half-even at the `p`-th one and
+lays the result out as `0.0…0ddd`, `0`/`0.000` (everything rounded away) or `1`/`1.000` (carry into the units). -/
+theorem format_eq_spec_fixed_all (pre : List Nat) (bits p f : Nat) (hf : f = 1 ∨ f = 2) (hp : p ≤ 40) :
+    realToString f64 pre bits p f = .ok (pre ++ FmtSpec.format64 bits p (specFmt f)) := by
+  by_cases hs : Special64 bits
+  · exact special_values.1 pre bits p f hs (by omega)
+  · unfold Special64 at hs
+    have hfin : (bits / 2 ^ 52) % 2 ^ 11 ≠ 2 ^ 11 - 1 := fun h => hs (Or.inl h)
+    have hnz : (bits / 2 ^ 52) % 2 ^ 11 ≠ 0 ∨ bits % 2 ^ 52 ≠ 0 := by
+      by_contra hc
+      simp only [not_or, ne_eq, not_not] at hc
+      exact hs (Or.inr hc)
+    exact Qentem.Proofs.NumToStr.fixed_finite_64 pre bits p f hf hp hfin hnz
+
+/-- tests (kernel evaluation): 0.05 Fixed 1 → 0.1 (the stored value is above the tie); 0.000123456 Fixed 5;
+0.96 Fixed 1 → 1.0 (carry into the units); 0.04 Fixed 1 → 0.0; smallest subnormal SemiFixed 3 → 0 -/
+example : realToString f64 [] 0x3FA999999999999A 1 fmtFixed = .ok [48, 46, 49] := by decide +kernel
+example : realToString f64 [] 0x3F202E7EF70994DD 5 fmtFixed = .ok [48, 46, 48, 48, 48, 49, 50] := by decide +kernel
+example : realToString f64 [] 0x3FEEB851EB851EB8 1 fmtFixed = .ok [49, 46, 48] := by decide +kernel
+example : realToString f64 [] 0x3FA47AE147AE147B 1 fmtFixed = .ok [48, 46, 48] := by decide +kernel
+example : realToString f64 [] 0x0000000000000001 3 fmtSemiFixed = .ok [48] := by decide +kernel
+
+/-- `format_eq_spec_double`: **the double half of `FormatEqSpec`, proved in full**: for every one of the 2^64 bit
+patterns (indeed for every natural number read as a pattern), every precision ≤ 40, each of the three formats and
+any prior stream contents, `realToString` appends exactly the reference text (`%.{p}g`, `%.{p}f`, `%.{p}f` stripped;
+`inf`, `-inf`, `nan`) and raises no fault (no out-of-range access, no size wrap, no BigInt overflow).
+The proof goes through `digits_exact_or_sticky` (the BigInt pipeline yields the exact decimal expansion cut at a
+known place plus a sticky flag), `realFinite_reduce` (model = string formatter applied to that digit run), and the
+string-level lemmas for `roundStringNumber`, `formatStringNumberDefault` and `formatStringNumberFixed`. -/
+theorem format_eq_spec_double (pre : List Nat) (bits p f : Nat) (hp : p ≤ 40) (hf : f ≤ 2) :
+    realToString f64 pre bits p f = .ok (pre ++ FmtSpec.format64 bits p (specFmt f)) := by
+  have h3 : f = 0 ∨ f = 1 ∨ f = 2 := by omega
+  rcases h3 with rfl | h12
+  · by_cases hs : Special64 bits
+    · exact special_values.1 pre bits p 0 hs (by omega)
+    · unfold Special64 at hs
+      have hfin : (bits / 2 ^ 52) % 2 ^ 11 ≠ 2 ^ 11 - 1 := fun h => hs (Or.inl h)
+      have hnz : (bits / 2 ^ 52) % 2 ^ 11 ≠ 0 ∨ bits % 2 ^ 52 ≠ 0 := by
+        by_contra hc
+        simp only [not_or, ne_eq, not_not] at hc
+        exact hs (Or.inr hc)
+      exact Qentem.Proofs.NumToStr.default_finite_64 pre bits p hp hfin hnz
+  · exact format_eq_spec_fixed_all pre bits p f h12 hp
+
+/-- tests (kernel evaluation): 0.0001 at 6 digits → 0.0001; 0.00001 → 1e-05; 0.00099999999 at 3 → 0.001 (carry,
+four zeros kept); 0.000099999999 at 3 → 0.0001; 0.0000099999 at 2 → 1e-05; smallest subnormal at 17 digits -/
+example : realToString f64 [] 0x3F1A36E2EB1C432D 6 fmtDefault = .ok [48, 46, 48, 48, 48, 49] := by decide +kernel
+example : realToString f64 [] 0x3EE4F8B588E368F1 6 fmtDefault = .ok [49, 101, 45, 48, 53] := by decide +kernel
+example : realToString f64 [] 0x3F50624DD031FA00 3 fmtDefault = .ok [48, 46, 48, 48, 49] := by decide +kernel
+example : realToString f64 [] 0x3EE4F8A7CA737C05 2 fmtDefault = .ok [49, 101, 45, 48, 53] := by decide +kernel
+example : realToString f64 [] 0x0000000000000001 17 fmtDefault =
+    .ok [52, 46, 57, 52, 48, 54, 53, 54, 52, 53, 56, 52, 49, 50, 52, 54, 53, 52, 101, 45, 51, 50, 52] := by decide +kernel
+
+/-- `format_eq_spec_float`: **the float half of `FormatEqSpec`, proved in full**: every `binary32` bit pattern, every
+precision ≤ 40, each format, any prior stream contents.  Same proof as for doubles — the generic lemmas are shared
+and the class theorems are instantiated with 23 mantissa bits, bias 127 and the 320-bit BigInt (`Shape f32 23 127`). -/
+theorem format_eq_spec_float (pre : List Nat) (bits p f : Nat) (hp : p ≤ 40) (hf : f ≤ 2) :
+    realToString f32 pre bits p f = .ok (pre ++ FmtSpec.format32 bits p (specFmt f)) := by
+  by_cases hs : Special32 bits
+  · exact special_values.2 pre bits p f hs (by omega)
+  · unfold Special32 at hs
+    have hfin : (bits / 2 ^ 23) % 2 ^ 8 ≠ 2 ^ 8 - 1 := fun h => hs (Or.inl h)
+    have hnz : (bits / 2 ^ 23) % 2 ^ 8 ≠ 0 ∨ bits % 2 ^ 23 ≠ 0 := by
+      by_contra hc
+      simp only [not_or, ne_eq, not_not] at hc
+      exact hs (Or.inr hc)
+    have h3 : f = 0 ∨ f = 1 ∨ f = 2 := by omega
+    rcases h3 with rfl | h12
+    · exact Qentem.Proofs.NumToStr.default_finite_32 pre bits p hp hfin hnz
+    · exact Qentem.Proofs.NumToStr.fixed_finite_32 pre bits p f h12 hp hfin hnz
+
+/-- **`format_eq_spec`: `FormatEqSpec` holds.**  For every double and every float, every precision up to 40 and
+each of the three formats, `Digit::NumberToString` (as modelled: BigInt pipeline, digit estimate table, string
+rounding, the two string formatters, with every index, length and BigInt access checked) appends exactly the
+reference text written from IEEE 754 and the C standard's `printf`, and no fault occurs. -/
+theorem format_eq_spec : FormatEqSpec :=
+  ⟨fun pre bits p f _ hp hf => format_eq_spec_double pre bits p f hp hf,
+   fun pre bits p f _ hp hf => format_eq_spec_float pre bits p f hp hf⟩
+
+/-- tests (kernel evaluation), floats: 0.1f at 9 digits; 16777216f Fixed 1; 1e-45f (smallest subnormal) at 3 -/
+example : realToString f32 [] 0x3DCCCCCD 9 fmtDefault =
+    .ok [48, 46, 49, 48, 48, 48, 48, 48, 48, 48, 49] := by decide +kernel
+example : realToString f32 [] 0x4B800000 1 fmtFixed = .ok [49, 54, 55, 55, 55, 50, 49, 54, 46, 48] := by decide +kernel
+example : realToString f32 [] 0x00000001 3 fmtDefault = .ok [49, 46, 52, 101, 45, 52, 53] := by decide +kernel
 
 /-- `format_eq_spec_partial`: `FormatEqSpec` restricted to the special classes.  The rest — every
 finite non-zero value — is open; see `notes/design-numtostr.md`. -/
